@@ -128,6 +128,9 @@ func c02Case(c *fw.Case, t *pdus.Type, force, class int, g *gridCell) {
 		}
 	}
 	ctx := func() string { return pdus.Describe(t, v) }
+	if c.R.Chance(1, 8) {
+		refusedEncodeFirst(c) // what a refused encode leaves in pooled writers must not reach the image judged next
+	}
 	// --- encoder side
 	p := pdus.Build(t, v)
 	if c.R.Bool() {
